@@ -150,6 +150,28 @@ func suiteTransport(t *testing.T, cfg cfgT) {
 					qs = append(qs, mkq())
 				}
 			}
+			// look-alikes: a subject id that is spelled like a subject set of the same batch (and the other way round)
+			// is a DIFFERENT subject; entries must not be confused by any textual key
+			for _, q := range append([]*ketoapi.RelationTuple{}, qs...) {
+				if len(qs) >= 10 || !hr.chance(1, 2) { // 10 = the default batch size limit
+					continue
+				}
+				twin := *q
+				if q.SubjectSet != nil {
+					sidStr := q.SubjectSet.String()
+					twin.SubjectID, twin.SubjectSet = &sidStr, nil
+				} else if q.SubjectID != nil {
+					if ss, err := (&ketoapi.SubjectSet{}).FromString(*q.SubjectID); err == nil {
+						twin.SubjectID, twin.SubjectSet = nil, ss
+					} else {
+						continue
+					}
+				} else {
+					continue
+				}
+				qs = append(qs, &twin)
+			}
+			n = len(qs)
 			var es, parts []string
 			req := &rts.BatchCheckRequest{MaxDepth: int32(depth)}
 			for _, q := range qs {
